@@ -326,6 +326,13 @@ def acc4(cfg):
                         z = absint.ev(f, rhs, {}) == 0
                     except absint.Unsupported:
                         z = False
+                    # whole-array value-initialisation `node_counts = {}` zeroes every slot
+                    rx = f.strip_casts(rhs)
+                    tx = f.strip_casts(tgt)
+                    if not z and 'node_counts' in s and isinstance(tx, dict) and tx.get('k') == 'member' and isinstance(rx, dict) and ((rx.get('k') == 'initlist' and not rx.get('args')) or (rx.get('k') == 'call' and rx.get('ck') == 'ctor' and not rx.get('args'))):
+                        for i_ in range(5):
+                            zeroed.add(('node_counts', str(i_)))
+                        continue
                     if z and ('node_counts' in s or 'current_memory_use' in s):
                         idx = ''
                         t = f.strip_casts(tgt)
